@@ -524,7 +524,7 @@ def gen_fixture(rng, lo=False, with_tcp=False, sched_focus=False):
             s = rng.choice(v4)
             c = rng.randrange(n)
             dst = "127.0.0.1" if c == s else next(a for a in hosts[s] if "." in a)
-            tcpcfg.append({"server": s, "client": c, "dst": dst, "port": 7000 + s,
+            tcpcfg.append({"server": s, "client": c, "dst": dst, "port": 7000 + i,
                            "at": rng.randrange(1, max(2, active - 2)), "n": rng.choice([1, 10, 200, 3000])})
     for k in range(active):
         rh = rng.randrange(n)                      # the one host allowed rule operations in this step
@@ -535,6 +535,7 @@ def gen_fixture(rng, lo=False, with_tcp=False, sched_focus=False):
                 cmds.append(["udp", rand_dst(rng, hosts, h), tags.next()])
             if h == rh and not (with_tcp and k == 0):
                 nops = rng.choice([0, 0, 1, 1, 2]) if not sched_focus else (1 if k == 0 else rng.choice([0, 0, 0, 1]))
+                ops = []
                 for _ in range(nops):
                     r = rng.random()
                     if r < 0.6 or not key:
@@ -544,13 +545,17 @@ def gen_fixture(rng, lo=False, with_tcp=False, sched_focus=False):
                                     "d": rng.choice(["pass", ["deliver", rng.choice(delays)]])}
                         else:
                             spec = rand_spec(rng, future_tags, allips, delays)
-                        cmds.insert(rng.randrange(len(cmds) + 1), ["install", key, spec])
+                        ops.append(["install", key, spec])
                         live.append(key)
                     else:
                         kk = rng.choice(live) if live and rng.random() < 0.85 else rng.randrange(1, key + 1)
-                        cmds.insert(rng.randrange(len(cmds) + 1), [rng.choice(["drop", "drop", "forget"]), kk])
+                        ops.append([rng.choice(["drop", "drop", "forget"]), kk])
                         if kk in live:
                             live.remove(kk)
+                # interleave with the sends of this step, keeping the order of the rule operations
+                slots = sorted(rng.randrange(len(cmds) + 1) for _ in ops)
+                for off, (pos, op) in enumerate(zip(slots, ops)):
+                    cmds.insert(pos + off, op)
     return {"mode": "fixture", "cfg": {"hosts": hosts, "lo": lo, "nsteps": nsteps, "tcp": tcpcfg}, "script": script,
             "flavour": "fixture-lo" if lo else "fixture-tcp" if with_tcp else "fixture-sched" if sched_focus else "fixture"}
 
